@@ -6,10 +6,13 @@
   rv32i_text_fits, rv32i_walk_tiles.
   MSP430 (NakenVerif.Msp430.DisProps, DisLocal): msp430_len_bounds, msp430_decode_local, msp430_text_fits,
   msp430_walk_tiles, msp430_walk_tiles_disasm, table_dis_types, table_instr_short
+  MOS 6502 / 65C02 (NakenVerif.M6502.DisProps): m6502_len_bounds, m6502_decode_local, m6502_text_fits,
+  m6502_walk_tiles, m6502_walk_tiles_disasm, table_len_consistent, table_names_short
 -/
 import NakenVerif.Common.Walk
 import NakenVerif.Riscv.Props
 import NakenVerif.Msp430.Fixpoint
+import NakenVerif.M6502.Fixpoint
 namespace NakenVerif.Walk
 
 /-- non-vacuity: a concrete tiling (lengths 4, 2, 2, 4 …) -/
